@@ -188,11 +188,11 @@ theorem inFold_truthy (lhs : Expr) (σ : Nat → Nat) (hσ : Agree Γ ρ σ) :
     simp [List.any_cons, Bool.or_assoc]
 
 /-- **`in` means membership.**  `lhs in rangelist(items)` holds iff some item matches -/
-theorem in_truthy (lhs : Expr) (items : List RangeItem) (hne : items ≠ [])
+theorem in_truthy (lhs : Expr) (items : List RangeItem)
     (hwf : ∀ it ∈ items, WFItem Γ lhs it) (σ : Nat → Nat) (hσ : Agree Γ ρ σ) :
     truthy Γ ρ (mkIn lhs items) = items.any (itemHolds Γ ρ lhs) := by
   cases items with
-  | nil => exact absurd rfl hne
+  | nil => simp [mkIn, inFold, truthy, sval, pat]
   | cons it rest =>
     have hit := hwf it (List.mem_cons_self ..)
     obtain ⟨e, he, _, hte⟩ := inFold_truthy Γ ρ lhs σ hσ rest (inTerm lhs it) (inTerm_bit1 Γ lhs it hit)
@@ -220,7 +220,7 @@ theorem dist_support (lhs : Expr) (ws : List Weight) (hne : ws ≠ [])
     simp only [rewrite, List.mem_cons]; left
     congr 2)
   simp only [sholds, mholds] at hin
-  rw [in_truthy Γ ρ lhs (ws.map itemOf) (by simpa using hne)
+  rw [in_truthy Γ ρ lhs (ws.map itemOf)
     (by intro it hit; obtain ⟨x, hx, rfl⟩ := List.mem_map.mp hit; exact (hwf x hx).1) σ hσ] at hin
   obtain ⟨it, hit, hm⟩ := List.any_eq_true.mp hin
   obtain ⟨x, hx, rfl⟩ := List.mem_map.mp hit
